@@ -9,6 +9,12 @@ ASSUME = ["TLC explores the bounded instance only (trees of the catalogue / gene
 def main(tier_):
     cfg = "MC_C01_quick.cfg" if tier_ == "quick" else "MC_C01_thorough.cfg"
     v, cov, wall = lookup_static.run("C01", tier_, cfg, sample=6000 if tier_ == "quick" else None)
+    # the real link budgets (40 / 128) on a 130-link chain: TLC with the real constants, all cases replayed
+    vb, covb, _ = lookup_static.run("C01", tier_, "MC_C01_budget.cfg", sample=None, bind_budget=True)
+    for sig, desc, rep in vb.violations:
+        v.violation(dict(sig, family="real-budgets"), desc, rep)
+    cov["real_link_budgets"] = dict(states=covb["states"], cases=covb["traces_validated_against_impl"], budget_cases=covb["budget_cases"], budget_constant_drift=covb["budget_constant_drift"], oracle_vs_kernel_mismatch=covb["oracle_vs_kernel_mismatch"],
+                                    agree_kernel=covb["agree_kernel"], agree_emulated=covb["agree_emulated"])
     rc = v.finish()
     write_evidence("C01", tier_, "model_checking", cov, ASSUME, wall, len(v.violations))
     return rc
